@@ -278,6 +278,99 @@ def adjoint_rule(chk, src):
     chk.ob("adjoint", "MatrixProduct.conj: every site conjugated, source untouched", ok2, cj.where, {i: repr(v) for i, v in getattr(out2, "sites", {}).items()}, "new[i] = self[i].conj()", line=cj.node.lineno)
 
 
+
+def chain_direct_sum_rule(chk, src):
+    """abstract run of MatrixProduct.add on 4 symbolic sites (state and operator form): first site joined along the right bond, last site along the left bond, middle sites
+    block-diagonal, always with `self` in the leading block, labels concatenated in the same order"""
+    from ..syminterp import SymInterp, Sym, OpenSym, Blob
+    fi = src.func(MP, "MatrixProduct.add")
+    N = 4
+
+    class D:
+        def __init__(self, name):
+            self.name = name
+
+        def __add__(self, o):
+            return D(f"{self.name}+{o.name}")
+
+        def __eq__(self, o):
+            return isinstance(o, D) and self.name == o.name
+
+        def __hash__(self):
+            return hash(self.name)
+
+        def __repr__(self):
+            return self.name
+
+    class Site(Sym):
+        def __init__(self, who, i, rank):
+            super().__init__(f"{who}[{i}]")
+            names = ["l", "p", "r"] if rank == 3 else ["l", "pu", "pd", "r"]
+            self.shape = tuple(D(f"{x}{i}" if x.startswith("p") else f"{who}.{x}{i}") for x in names)
+
+        def __getitem__(self, k):
+            return self
+
+    class Block(Sym):
+        def __init__(self, shape):
+            super().__init__("zeros")
+            self.shape, self.stores = list(shape), []
+
+        def __setitem__(self, k, v):
+            self.stores.append((tuple((x.start, x.stop) if isinstance(x, slice) else x for x in k), v))
+    for form, rank in (("mps", 3), ("mpo", 4)):
+        A = [Site("self", i, rank) for i in range(N)]
+        B = [Site("other", i, rank) for i in range(N)]
+        new_sites = {}
+
+        class New(Sym):
+            def __setitem__(self, i, v):
+                new_sites[i % N] = v
+        calls = []
+        new = New("new", dtype="dt", qn=[Sym(f"selfqn{b}", shape=("n", "q")) for b in range(N + 1)], compress_config=Sym("cc", update=lambda c: None))
+        new.__dict__["move_qnidx"] = lambda idx: calls.append(("move_qnidx", idx))
+        new.__dict__["to_complex"] = lambda inplace=False: None
+
+        class Me(Sym):
+            def __getitem__(self, i):
+                return (A if self._name == "self" else B)[i]
+        me = Me("self", qntot="qt", site_num=N, dtype="dt", is_complex=False, is_mps=form == "mps", is_mpo=form == "mpo", is_mpdm=False, compress_config="cc", metacopy=lambda: new)
+        other = Me("other", qntot="qt", site_num=N, dtype="dt", qnidx="other.qnidx", to_right="other.to_right", qn=[Sym(f"otherqn{b}") for b in range(N + 1)])
+        class Cat(Sym):
+            def __init__(self, parts):
+                super().__init__("concat(" + ",".join(parts) + ")")
+                self.parts, self.shape = list(parts), ("n", "q")
+        it = SymInterp(src, None, {"np": OpenSym("np", all=lambda x: True, concatenate=lambda l, axis=None: Cat([repr(x) for x in l]), zeros=lambda shape, dtype=None: Sym("zero-label", shape=("one", "q"))),
+                                   "backend": Blob("backend"), "dstack": lambda l: ("join", 2, [repr(x) for x in l]), "vstack": lambda l: ("join", 0, [repr(x) for x in l]),
+                                   "concatenate": lambda l, axis=None: ("join", axis, [repr(x) for x in l]), "zeros": lambda shape, dtype=None: Block(shape)})
+        out = it.call_function(fi, [me, other])
+        last_axis = rank - 1
+        probs = []
+        if new_sites.get(0) != ("join", last_axis, ["self[0]", "other[0]"]):
+            probs.append(f"first site: {new_sites.get(0)}")
+        if new_sites.get(N - 1) != ("join", 0, [f"self[{N - 1}]", f"other[{N - 1}]"]):
+            probs.append(f"last site: {new_sites.get(N - 1)}")
+        for i in range(1, N - 1):
+            b = new_sites.get(i)
+            if not isinstance(b, Block):
+                probs.append(f"site {i}: {b!r}")
+                continue
+            la, lb, ra, rb = A[i].shape[0], B[i].shape[0], A[i].shape[-1], B[i].shape[-1]
+            phys = list(A[i].shape[1:-1])
+            want_shape = [la + lb] + phys + [ra + rb]
+            full = (None, None)
+            want_stores = [(((None, la),) + tuple(full for _ in phys) + ((None, ra),), A[i]), (((la, None),) + tuple(full for _ in phys) + ((ra, None),), B[i])]
+            if b.shape != want_shape or [(k, v) for k, v in b.stores] != want_stores:
+                probs.append(f"site {i}: shape {b.shape}, blocks {[(k, repr(v)) for k, v in b.stores]}")
+        qn = getattr(out, "qn", None)
+        okq = isinstance(qn, list) and len(qn) == N + 1 and all(getattr(qn[b], "parts", None) == [f"selfqn{b}", f"otherqn{b}"] for b in range(1, N)) and repr(qn[0]) == "zero-label" and repr(qn[-1]) == "zero-label"
+        okc = calls == [("move_qnidx", "other.qnidx")] and getattr(out, "to_right", None) == "other.to_right" and out is new
+        chk.ob("chain-direct-sum", f"MatrixProduct.add [{form}]: tensors", not probs, fi.where, probs[:2] or "first / middle / last sites as specified", "self in the leading block of every bond", line=fi.node.lineno,
+               detail="a + b as a matrix product: the two operands occupy diagonal blocks of every bond, in the same order on both sides of each site: " + (probs[0] if probs else ""))
+        chk.ob("chain-direct-sum", f"MatrixProduct.add [{form}]: labels and centre", okq and okc, fi.where, {"qn[1]": repr(qn[1]) if isinstance(qn, list) and len(qn) > 1 else repr(qn), "calls": calls},
+               "labels of self (moved to other's centre) followed by other's; boundary labels reset; centre and direction of other", line=fi.node.lineno)
+
+
 def run(chk):
     src = chk.src
     chk.explanation = (
@@ -293,6 +386,8 @@ def run(chk):
     run_align_and_charge(chk, src)
     run_merge_order(chk, src)
     run_label_freshness(chk, src)
+    chk.rule("chain-direct-sum", "abstract run of MatrixProduct.add (state and operator form)", 4)
+    chain_direct_sum_rule(chk, src)
     chk.rule("adjoint", "complex conjugate / adjoint act site by site (abstract run)", 3)
     adjoint_rule(chk, src)
     chk.rule("prefactor", "scalar prefactor kept separately from tensors is folded / conjugated / applied consistently", 8)
